@@ -8,7 +8,7 @@ package mem
 //@ spec overlaps(n *types.Alert, o *types.Alert) bool =
 //@     (n.EndsAt > o.StartsAt && n.EndsAt < o.EndsAt) || (n.StartsAt > o.StartsAt && n.StartsAt < o.EndsAt)
 //@ func (*Alerts).Put
-//@   props C13 C18 C14
+//@   props C13 C18 C14 C06 C05 C03
 //@   ensures [monitor-lock-released] count("Mutex).Lock") == count("Mutex).Unlock") && count("Mutex).Lock") == 1
 //@   at call store.Alerts).Get assert [monitor-lock-held] count("Mutex).Lock") == 1 && count("Mutex).Unlock") == 0
 //@   abstract
